@@ -238,7 +238,10 @@ def coq_eval_shards(pid, shards, timeout=900):
         rc, out, dt = sh("ulimit -s unlimited 2>/dev/null || ulimit -s 1000000 2>/dev/null; exec coqc -noglob -Q '%s' EC -Q '%s' Cases '%s'" % (COQ, d, p), timeout=timeout)
         return rc, out
 
-    with concurrent.futures.ThreadPoolExecutor(max_workers=16) as ex:
+    # coqc needs roughly 1 GB per MB of case literal: keep the shards that run at once within memory
+    biggest = max([len(t) for t in shards] + [1]) / 1e6
+    workers = max(1, min(16, int(36 / max(0.3, biggest))))
+    with concurrent.futures.ThreadPoolExecutor(max_workers=workers) as ex:
         return list(ex.map(one, paths))
 
 
